@@ -23,7 +23,7 @@ EXPLANATION = (
     "and nothing else. C05.e (twin evaluations of one curve): the daily root expansion is the difference of the potential-depth curve "
     "at today's and yesterday's development time; the two evaluations receive the same sequence of definitions (after renaming the "
     "time variable) - in particular the restrictive-layer correction is applied to both or to neither - otherwise the difference is "
-    "negative and the roots shrink. C05.f: the stress multiplier of the harvest index reaches the adjusted index only through the limit 1 + dHI0/100 (must-pass-through; the cap on the product of the pre- and post-anthesis factors, not on one factor). C05.g: in the restrictive-layer correction the penetrability fraction multiplies potential depth (potential -> actual) and divides the crossed thickness (actual -> potential). C05.h: = C04.d (the submergence factor of ponded-water transpiration stays >= 0: a negative daily transpiration makes biomass decrease). NOT decided: canopy envelope, harvest-index monotonicity, root depth <= Zmax, degree-day range "
+    "negative and the roots shrink. C05.f: the stress multiplier of the harvest index reaches the adjusted index only through the limit 1 + dHI0/100 (must-pass-through; the cap on the product of the pre- and post-anthesis factors, not on one factor). C05.g: in the restrictive-layer correction the penetrability fraction multiplies potential depth (potential -> actual) and divides the crossed thickness (actual -> potential). C05.h: = C04.d (the submergence factor of ponded-water transpiration stays >= 0: a negative daily transpiration makes biomass decrease). C05.i: yesterday's development time in root_development is today's delay-adjusted time minus the day's increment (1 day / the day's degree days), per calendar type, by polynomial normal form. C05.j (canopy cover <= CCx, structural half): in canopy_cover a raw arithmetic value reaches the canopy-cover fields only through a bound - cc_development, min with a bounded arm, a dominating clamp `if v > B: v = B`, a guard `v < bounded`, or a clamp right after the store. C05.k (deviant sibling): every division of the thermal-time conversion by a difference of calendar stages is preceded by a test of that difference against 0 (raise or positive fallback). NOT decided: canopy envelope, harvest-index monotonicity, root depth <= Zmax, degree-day range "
     "(numeric trajectories).")
 
 ZERO_COLS = ["dap", "gdd_cum", "z_root", "canopy_cover", "canopy_cover_ns", "biomass", "biomass_ns",
@@ -60,12 +60,167 @@ def run(chk, prog, tier):
     rule_e(chk, prog)
     rule_f(chk, prog)
     rule_g(chk, prog)
+    rule_j(chk, prog)
+    rule_k(chk, prog)
     chk.assume("A-1")
     # C05.h: biomass never decreases within a season only if the daily transpiration it is built from is >= 0: the submergence factor that
     # scales transpiration from ponded water is evaluated only where day_submerged <= LagAer (= C04.d)
     from .c04 import rule_d as submergence_factor
     submergence_factor(chk, prog, rule="C05.h")
     chk.exhaustive = True
+
+
+CANOPY_FIELDS = ("canopy_cover", "canopy_cover_ns")
+
+
+def rule_j(chk, prog):
+    """C05.j (canopy cover <= CCx - structural half): in canopy_cover() a value computed by raw arithmetic (an exponential, a product) reaches the
+    state's canopy cover (actual or no-stress) only through a bound: the growth / decline curve `cc_development` (which limits its result), a
+    `min(..)` with a bounded arm, a clamp `if v > B: v = B` that dominates the store, a guard `v < <bounded>` on the store, or a clamp of the
+    stored field right after the store. Bounded without more: literals, yesterday's values (parameters of the function), other fields / crop
+    parameters, and locals all of whose definitions are bounded."""
+    fi = prog.find_func("canopy_cover")
+    flow = flow_of(fi)
+    cfg = flow.cfg
+    dom = cfg.dominators()
+    where = f"{fi.module}:{fi.qualname}"
+    chk.fn(fi.key)
+    parents = {}
+    for n in ast.walk(fi.node):
+        for c in ast.iter_child_nodes(n):
+            parents[id(c)] = n
+
+    def clamp_dominates(name_text, at):
+        """a test `<name> > B` whose True branch assigns `<name> = B` dominates node `at`"""
+        for t in dom.get(at, ()):
+            tn = cfg.nodes[t]
+            c = tn.ast
+            if tn.kind == "test" and isinstance(c, ast.Compare) and len(c.ops) == 1 and isinstance(c.ops[0], (ast.Gt, ast.GtE)) and norm(c.left) == name_text:
+                for s_, l in tn.succs:
+                    a = cfg.nodes[s_].ast
+                    if l is True and isinstance(a, ast.Assign) and norm(a.targets[0]) == name_text and norm(a.value) == norm(c.comparators[0]):
+                        return True
+        return False
+
+    def guarded_below(name_text, at):
+        for t, l in cfg.transitive_control_deps(at):
+            c = cfg.nodes[t].ast
+            if cfg.nodes[t].kind == "test" and l is True and isinstance(c, ast.Compare) and len(c.ops) == 1 and isinstance(c.ops[0], (ast.Lt, ast.LtE)) \
+                    and norm(c.left) == name_text and kind(c.comparators[0], t) == "bounded":
+                return True
+        return False
+
+    def kind(e, at, depth=0):
+        e = _strip_float(e)
+        if isinstance(e, ast.Constant):
+            return "bounded" if isinstance(e.value, (int, float)) and 0 <= e.value <= 1 else "raw"
+        if isinstance(e, ast.Attribute):
+            return "bounded"
+        if isinstance(e, ast.Call):
+            f = norm(e.func)
+            if f.split(".")[-1] == "cc_development":
+                return "bounded"
+            if f in ("min", "np.minimum") and any(kind(a, at, depth + 1) == "bounded" for a in e.args):
+                return "bounded"
+            return "raw"
+        if isinstance(e, ast.Name):
+            if at is None or depth > 6:
+                return "raw"
+            if clamp_dominates(e.id, at) or guarded_below(e.id, at):
+                return "bounded"
+            ks = []
+            for d in flow.defs_reaching(e.id, at):
+                if d == ENTRY:
+                    ks.append("bounded" if e.id in fi.params else "raw")
+                    continue
+                a = cfg.nodes[d].ast
+                v = getattr(a, "value", None)
+                ks.append(kind(v, d, depth + 1) if isinstance(a, ast.Assign) and v is not None else "raw")
+            return "bounded" if ks and all(k == "bounded" for k in ks) else "raw"
+        return "raw"
+
+    n = 0
+    for a in walk_no_nested(fi.node):
+        if not (isinstance(a, ast.Assign) and len(a.targets) == 1 and isinstance(a.targets[0], ast.Attribute) and a.targets[0].attr in CANOPY_FIELDS):
+            continue
+        at = flow.stmt_node.get(id(a))
+        if at is None:
+            continue
+        n += 1
+        construct = norm(a)[:100]
+        k = kind(a.value, at)
+        if k == "raw":
+            # a clamp of the stored field right after the store
+            blk = None
+            par = parents.get(id(a))
+            for fld in ("body", "orelse", "finalbody"):
+                lst = getattr(par, fld, None)
+                if isinstance(lst, list) and any(x is a for x in lst):
+                    blk = lst
+            nxt = blk[[i for i, x in enumerate(blk) if x is a][0] + 1] if blk and blk[-1] is not a else None
+            tgt = norm(a.targets[0])
+            if isinstance(nxt, ast.If) and isinstance(nxt.test, ast.Compare) and isinstance(nxt.test.ops[0], (ast.Gt, ast.GtE)) and norm(nxt.test.left) == tgt \
+                    and nxt.body and isinstance(nxt.body[0], ast.Assign) and norm(nxt.body[0].targets[0]) == tgt and norm(nxt.body[0].value) == norm(nxt.test.comparators[0]):
+                k = "bounded"
+        if k == "bounded":
+            chk.ok("C05.j", where, construct, "a literal, a previous / other bounded value, the limited growth curve, or a clamped local")
+        else:
+            chk.violation("C05.j", where, construct, "a raw arithmetic value reaches the canopy cover without a limit: with a large daily time increment (a thermal calendar "
+                          "of few degree days and a warm day) the canopy cover exceeds the crop's maximum (values of 31.8 and 5e20 were produced)", loc=fi.loc(a))
+    chk.floor("C05.j", n, 25, "stores to the canopy cover fields in canopy_cover")
+
+
+def rule_k(chk, prog):
+    """C05.k (finite crop parameters; deviant-sibling rule): when the calendar is converted to thermal time, quotients divide by a difference of
+    converted stages (degree days between two stages). Two of them protect the difference (`if t <= 0: t = <fallback>`); every such division must be
+    preceded by a test of the difference against 0 that raises or replaces it - a planting period too cold for the crop makes the stages
+    coincide and the quotient inf / NaN for the whole season."""
+    fi = prog.find_func("compute_crop_calendar")
+    flow = flow_of(fi)
+    cfg = flow.cfg
+    dom = cfg.dominators()
+    where = f"{fi.module}:{fi.qualname}"
+    chk.fn(fi.key)
+
+    def stage_diff(e, at, depth=0):
+        """is e (through single-definition locals) a difference of two crop attributes?"""
+        for x in ast.walk(e):
+            if isinstance(x, ast.BinOp) and isinstance(x.op, ast.Sub) and isinstance(x.left, ast.Attribute) and isinstance(x.right, ast.Attribute) \
+                    and isinstance(x.left.value, ast.Name) and isinstance(x.right.value, ast.Name) and x.left.value.id == x.right.value.id:
+                return True
+            if isinstance(x, ast.Name) and at is not None and depth < 3:
+                for d in flow.defs_reaching(x.id, at):
+                    a = cfg.nodes[d].ast if d != ENTRY else None
+                    if isinstance(a, ast.Assign) and stage_diff(a.value, d, depth + 1):
+                        return True
+        return False
+
+    n = 0
+    for x in walk_no_nested(fi.node):
+        if not (isinstance(x, ast.BinOp) and isinstance(x.op, ast.Div)):
+            continue
+        at = flow.node_of(x)
+        if at is None or not stage_diff(x.right, at):
+            continue
+        n += 1
+        construct = f"... / ({norm(x.right)[:70]})"
+        names = {y.id for y in ast.walk(x.right) if isinstance(y, ast.Name)}
+        ok = False
+        for t in dom.get(at, ()):
+            tn = cfg.nodes[t]
+            c = tn.ast
+            if tn.kind == "test" and isinstance(c, ast.Compare) and len(c.ops) == 1 and isinstance(c.left, ast.Name) and c.left.id in names \
+                    and isinstance(c.ops[0], (ast.LtE, ast.Lt, ast.Eq)) and isinstance(c.comparators[0], ast.Constant):
+                for s_, l in tn.succs:
+                    a = cfg.nodes[s_].ast
+                    if l is True and (isinstance(a, ast.Raise) or (isinstance(a, ast.Assign) and norm(a.targets[0]) == c.left.id and isinstance(a.value, ast.Constant) and a.value.value > 0)):
+                        ok = True
+        if ok:
+            chk.ok("C05.k", where, construct, "the difference of stages is tested against 0 first (raise / positive fallback)")
+        else:
+            chk.violation("C05.k", where, construct, "division by a difference of converted calendar stages with no test of the difference: with a planting period too cold for "
+                          "the crop the stages coincide (0 degree days apart) and the coefficient is inf - canopy cover, potential biomass and yield are NaN all season", loc=fi.loc(x))
+    chk.floor("C05.k", n, 2, "divisions by a difference of calendar stages in compute_crop_calendar")
 
 
 def _strip_float(e):
